@@ -88,9 +88,14 @@ pub fn gen_cfg(rng: &mut Prng, max_work: usize, kinds: &[&str], engines: &[&str]
 }
 
 pub fn gen_originals(rng: &mut Prng, k: usize, sb: usize) -> Vec<Vec<u8>> {
-    let mode = rng.below(14);
+    let mode = rng.below(17);
     // a block shared by all shards (butterfly partners then cancel to an all-zero block)
     let shared = rng.bytes(64);
+    // record-shaped data: the same 16-byte fields of every 64-byte block are zero in all shards
+    // (so every intermediate value of the transform keeps that shape)
+    let nblocks = sb.div_ceil(64).max(1);
+    let one_mask = 1 + rng.below(14) as u8;
+    let masks: Vec<u8> = (0..nblocks).map(|_| if mode == 7 { one_mask } else { rng.below(16) as u8 }).collect();
     (0..k)
         .map(|i| match mode {
             0 => vec![0u8; sb],
@@ -126,6 +131,17 @@ pub fn gen_originals(rng: &mut Prng, k: usize, sb: usize) -> Vec<Vec<u8>> {
                 }
                 v
             }
+            7 | 8 | 9 => {
+                let mut v = rng.bytes(sb);
+                for (j, x) in v.iter_mut().enumerate() {
+                    if masks[j / 64] >> ((j % 64) / 16) & 1 == 1 {
+                        *x = 0;
+                    } else if *x == 0 {
+                        *x = 1;
+                    }
+                }
+                v
+            }
             _ => rng.bytes(sb),
         })
         .collect()
@@ -150,8 +166,27 @@ pub fn encode_impl(cfg: &Cfg, originals: &[Vec<u8>]) -> Option<Vec<Vec<u8>>> {
 
 /// loss patterns: which originals / recovery shards the decoder is given (>= k in total unless `short`)
 pub fn gen_received(rng: &mut Prng, k: usize, r: usize) -> (Vec<usize>, Vec<usize>, &'static str) {
-    let pat = rng.below(8);
+    let pat = rng.below(10);
     match pat {
+        8 | 9 => {
+            // every recovery shard given, the missing originals form one window that starts late and
+            // hugs a 32/64-position word boundary of the received-bitmap (in either rate's layout)
+            let m = rng.range(1, r.min(k));
+            let base = if rng.chance(1, 2) { 0 } else { npow2(r) };
+            let mut cands: Vec<usize> = Vec::new();
+            let mut w = 32;
+            while w < base + k + 32 {
+                for j in 0..=m + 1 {
+                    if w >= base + j && w - base - j + m <= k {
+                        cands.push(w - base - j);
+                    }
+                }
+                w += 32;
+            }
+            let a = if cands.is_empty() || pat == 9 && rng.chance(1, 3) { rng.below(k - m + 1) } else { *rng.pick(&cands) };
+            let orig: Vec<usize> = (0..k).filter(|i| *i < a || *i >= a + m).collect();
+            ((orig), (0..r).collect(), "all-recovery+late-window")
+        }
         0 => {
             // maximum loss: as many recovery shards as possible, the rest originals from the tail
             let nr = r.min(k);
